@@ -648,6 +648,10 @@ def extra_cases():
     for srgb in ('( -1,100 )', '( 100,-1 )', '( 16777215,16777215 )'):
         c.append((f'{R4} bgp-prefix-sid [ 300, [ {srgb} ] ]', False if '-' in srgb else True, None))
     c.append((f'{R4} bgp-prefix-sid [ -1, [ ( 800000,4096 ) ] ]', False, None))
+    # an SRGB is ( base,range ): one number is not a value the TLV can hold, after a complete one either
+    for srgbs in ('( 300 )', '( 100,200 ), ( 300 )', '( 100,200 ), ( ,300 )', '( 100,200 ), ( )', '( 100,200 ), ( 300, )'):
+        c.append((f'{R4} bgp-prefix-sid [ 5, [ {srgbs} ] ]', False, None))
+    c.append((f'{R4} bgp-prefix-sid [ 5, [ ( 100,200 ), ( 300,400 ) ] ]', True, _attr_on_wire(40, bytes.fromhex('01000700000000000005' '03000e0000' '0000640000c8' '00012c000190'))))
     S6 = 'announce route 2001:db8::/32 next-hop 2001:db8::1 bgp-prefix-sid-srv6 ( l3-service 2001::1 %s )'
     for beh, ok in (('0x48', True), ('65535', True), ('70000', False), ('-1', False), ('0x48 [ 300,0,0,0,0,0 ]', False), ('0x48 [ 40,24,16,0,255,0 ]', True), ('0x48 [ 40,24,16,0,256,0 ]', False), ('0x48 [ 40,24,16,0,-1,0 ]', False)):
         c.append((S6 % beh, ok, None))
